@@ -1254,3 +1254,57 @@ def sbl1(model):
                        'meaning and hidden text appears' % f.name,
                        witness='\\def\\LTskip#1{#1} A \\LTskip{hidden} B')
     return r
+
+
+# ----------------------------------------------------------------------------- LT1
+def lt1(model):
+    r = RuleResult('LT1', 'what Buffer.skip_space() skips is dropped for good: the classes that '
+                   'is_space() accepts carry no state.  A LanguageToken does (it opens or closes a '
+                   'language section for the splitter): it must not be skippable', floor=1)
+    f = model.func('scanner.Buffer.is_space')
+    names = [unparse(x).split('.')[-1] for n in ast.walk(f.node) if isinstance(n, (ast.Tuple, ast.List, ast.Set))
+             for x in n.elts]
+    if not names:
+        r.undec(f.node, 'class list of is_space not recognised')
+        r.instances = 1
+        return r
+    harmless = {'SpaceToken', 'CommentToken', 'ActionToken', 'VoidToken'}
+    for nm in names:
+        if nm in harmless:
+            r.ok(f.node, '%s carries no state' % nm, sample=False)
+        else:
+            r.fail(f.node, 'is_space() accepts %s: skip_space() behind a macro without arguments, or in '
+                   'front of an optional argument that is not there, drops the token that closes a '
+                   '\\foreignlanguage / otherlanguage section; all following text is assigned to the '
+                   'foreign language' % nm, stmt='is_space accepts ' + nm,
+                   witness='A \\foreignlanguage{german}{Das ist \\LaTeX} more english text ...  (multi-language mode)')
+    return r
+
+
+def lt2(model):
+    r = RuleResult('LT2', 'as long as is_space() accepts LanguageToken, expand_macro does not skip the '
+                   'space behind a macro name with skip_space(): the token that closes a '
+                   '\\foreignlanguage argument stands exactly there', floor=1)
+    isp = model.func('scanner.Buffer.is_space')
+    accepts = any(unparse(x).endswith('LanguageToken') for n in ast.walk(isp.node)
+                  if isinstance(n, (ast.Tuple, ast.List, ast.Set)) for x in n.elts)
+    f = model.func('parser.Parser.expand_macro')
+    calls = [n for n in iter_scope(f.node) if isinstance(n, ast.Call) and T.call_name(n) == 'skip_space']
+    if not accepts:
+        r.ok(isp.node, 'is_space() does not accept LanguageToken', nontrivial=True)
+        return r
+    if calls:
+        r.fail(calls[0], 'expand_macro skips the space behind the macro name with skip_space(), which '
+               'drops a LanguageToken: the switch back at the end of a \\foreignlanguage argument '
+               'is lost, all following text is assigned to the foreign language',
+               witness='A \\foreignlanguage{german}{Das ist \\LaTeX} more english text  (multi-language mode)')
+    else:
+        loops = [n for n in iter_scope(f.node) if isinstance(n, ast.While) and 'is_space' in unparse(n.test)]
+        if loops and all('LanguageToken' in unparse(n.test) for n in loops):
+            r.ok(loops[0], 'the space behind a macro name is skipped up to a LanguageToken', nontrivial=True)
+        elif loops:
+            r.fail(loops[0], 'the skipping loop of expand_macro crosses LanguageTokens',
+                   witness='A \\foreignlanguage{german}{Das ist \\LaTeX} more english text')
+        else:
+            r.ok(f.node, 'expand_macro does not skip space', sample=False)
+    return r
